@@ -125,14 +125,12 @@ package logdb
 //@ func (r *db) listSnapshots [C10]
 //@ noframe
 //@ nobounds
-//@ requires r.kvs != nil
 //@ modifies gIOFailed
 //@ ensures gIOFailed && !old(gIOFailed) ==> result1 != nil
 //@ ensures old(gIOFailed) ==> gIOFailed
 
 //@ func (r *db) saveSnapshot [C10 C20]
 //@ noframe
-//@ requires r.kvs != nil
 //@ modifies gIOFailed, gRecSnapshot
 //@ ensures gIOFailed && !old(gIOFailed) ==> result != nil
 //@ ensures old(gIOFailed) ==> gIOFailed
@@ -147,10 +145,9 @@ package logdb
 //@ func (r *db) saveEntries [C10]
 //@ noframe
 //@ nobounds
-//@ requires r.entries != nil
 //@ modifies gIOFailed
 //@ ensures gIOFailed == old(gIOFailed)
-//@ loop 1 invariant gIOFailed == old(gIOFailed) && r.entries != nil
+//@ loop 1 invariant gIOFailed == old(gIOFailed)
 
 //@ iface (em entryManager) record
 //@ ensures true
@@ -158,45 +155,42 @@ package logdb
 //@ func (be *batchedEntries) record [C10]
 //@ noframe
 //@ nobounds
-//@ requires be.kvs != nil && be.keys != nil && be.cs != nil && ctx != nil && wb != nil
+//@ requires ctx != nil
 //@ modifies gIOFailed
 //@ ensures gIOFailed == old(gIOFailed)
-//@ loop 1 invariant gIOFailed == old(gIOFailed) && be.kvs != nil && be.keys != nil && be.cs != nil && ctx != nil && wb != nil
+//@ loop 1 invariant gIOFailed == old(gIOFailed)
 
 //@ func (be *batchedEntries) recordBatch [C10]
 //@ noframe
 //@ nobounds
-//@ requires be.kvs != nil && be.keys != nil && be.cs != nil && ctx != nil && wb != nil
+//@ requires ctx != nil
 //@ modifies gIOFailed
 //@ ensures gIOFailed == old(gIOFailed)
 
 //@ func (be *batchedEntries) getMergedFirstBatch [C10]
 //@ noframe
 //@ nobounds
-//@ requires be.kvs != nil && be.keys != nil && be.cs != nil
 //@ modifies gIOFailed
 //@ ensures gIOFailed == old(gIOFailed)
 
 //@ func (be *batchedEntries) getLastBatch [C10]
 //@ noframe
 //@ nobounds
-//@ requires be.kvs != nil && be.keys != nil && be.cs != nil
 //@ modifies gIOFailed
 //@ ensures gIOFailed == old(gIOFailed)
 
 //@ func (be *batchedEntries) getBatchFromDB [C10]
 //@ noframe
 //@ nobounds
-//@ requires be.kvs != nil && be.keys != nil
 //@ modifies gIOFailed
 //@ ensures gIOFailed == old(gIOFailed)
 
 //@ func (pe *plainEntries) record [C10]
 //@ noframe
 //@ nobounds
-//@ requires ctx != nil && wb != nil
+//@ requires ctx != nil
 //@ ensures gIOFailed == old(gIOFailed)
-//@ loop 1 invariant gIOFailed == old(gIOFailed) && ctx != nil && wb != nil
+//@ loop 1 invariant gIOFailed == old(gIOFailed)
 
 // helpers without store I/O
 //@ func (p *keyPool) get [C10]
@@ -240,17 +234,15 @@ package logdb
 // If the underlying storage reports an error during a save, the save fails: it never returns success
 //@ func (r *db) saveRaftState [C10 C04]
 //@ noframe
-//@ requires r.kvs != nil && r.cs != nil && r.entries != nil
 //@ modifies gIOFailed
 //@ ensures gIOFailed && !old(gIOFailed) ==> result != nil
-//@ loop 1 invariant gIOFailed == old(gIOFailed) && r.kvs != nil && r.cs != nil && r.entries != nil
+//@ loop 1 invariant gIOFailed == old(gIOFailed)
 
 //@ func (r *db) saveSnapshots [C10 C16]
 //@ noframe
-//@ requires r.kvs != nil && r.cs != nil
 //@ modifies gIOFailed
 //@ ensures gIOFailed && !old(gIOFailed) ==> result != nil
-//@ loop 1 invariant gIOFailed == old(gIOFailed) && r.kvs != nil && r.cs != nil
+//@ loop 1 invariant gIOFailed == old(gIOFailed)
 
 // ---------------------------------------------------------------- importing a snapshot into the log store (C20)
 // The write batch is abstracted by the last operation it holds on each record of the replica:
@@ -287,13 +279,12 @@ package logdb
 //@ func (r *db) importSnapshot [C20 C10]
 //@ noframe
 //@ nobounds
-//@ requires r.kvs != nil && r.cs != nil
-//@ requires gSnapIndex == ss.Index && ss.Index != 0 && gRecSnapshot == 0 && gRecBootstrap == 0 && gRecState == 0 && gRecMaxIndex == 0
+//@ requires gSnapIndex == ss.Index && ss.Index != 0 && gRecSnapshot == 0 && gRecBootstrap == 0 && gRecState == 0 && gRecMaxIndex == 0 [C20]
 //@ modifies gIOFailed, gRecSnapshot, gRecBootstrap, gRecState, gRecMaxIndex, gBatchCommits
 //@ ensures result == nil ==> gRecSnapshot == 1 && gRecBootstrap == 1 && gRecState == 1 && gRecMaxIndex == 1
 //@ ensures result == nil ==> gBatchCommits == old(gBatchCommits) + 1
 //@ ensures gIOFailed && !old(gIOFailed) ==> result != nil
-//@ loop 1 invariant gIOFailed == old(gIOFailed) && gRecSnapshot == 0 && gRecBootstrap == 0 && gRecState == 0 && gRecMaxIndex == 0 && gBatchCommits == old(gBatchCommits) && r.kvs != nil
+//@ loop 1 invariant gIOFailed == old(gIOFailed) && gRecSnapshot == 0 && gRecBootstrap == 0 && gRecState == 0 && gRecMaxIndex == 0 && gBatchCommits == old(gBatchCommits)
 
 // ---------------------------------------------------------------- reading entries back: plain format (C09)
 // From the property: the entries returned for a range are contiguous from its lower bound
@@ -318,7 +309,7 @@ package logdb
 //@ func (pe *plainEntries) iterate [C09 C10]
 //@ noframe
 //@ nobounds
-//@ requires pe.kvs != nil && pe.keys != nil && maxIndex < MaxUint64
+//@ requires maxIndex < MaxUint64
 //@ modifies gIOFailed, gScanHigh
 //@ ensures result2 == nil ==> len(result0) >= len(old(ents)) && (forall i int :: len(old(ents)) <= i && i < len(result0) ==> result0[i].Index == low + (i - len(old(ents))))
 // never an entry past the logical end
@@ -342,14 +333,13 @@ package logdb
 //@ func (be *batchedEntries) iterateBatches [C09 C10]
 //@ noframe
 //@ nobounds
-//@ requires be.kvs != nil && be.keys != nil
 //@ modifies gIOFailed
 //@ ensures gIOFailed && !old(gIOFailed) ==> result1 != nil
 
 //@ func (be *batchedEntries) iterate [C09 C10]
 //@ noframe
 //@ nobounds
-//@ requires be.kvs != nil && be.keys != nil && maxIndex < MaxUint64
+//@ requires maxIndex < MaxUint64
 //@ modifies gIOFailed
 //@ ensures result2 == nil ==> len(result0) >= len(old(ents)) && (forall i int :: len(old(ents)) <= i && i < len(result0) ==>
 //@    result0[i].Index == old(low) + (i - len(old(ents))) && result0[i].Index <= maxIndex && result0[i].Index < old(high))
@@ -382,42 +372,36 @@ package logdb
 //@ func (r *db) getMaxIndex [C10]
 //@ noframe
 //@ nobounds
-//@ requires r.kvs != nil && r.keys != nil && r.cs != nil
 //@ modifies gIOFailed
 //@ ensures gIOFailed && !old(gIOFailed) ==> result1 != nil && !errIs(result1, sentinel("raftio", "ErrNoSavedLog"))
 
 //@ func (r *db) getState [C10]
 //@ noframe
 //@ nobounds
-//@ requires r.kvs != nil && r.keys != nil
 //@ modifies gIOFailed
 //@ ensures gIOFailed && !old(gIOFailed) ==> result1 != nil
 
 //@ func (r *db) getBootstrapInfo [C10]
 //@ noframe
 //@ nobounds
-//@ requires r.kvs != nil
 //@ modifies gIOFailed
 //@ ensures gIOFailed && !old(gIOFailed) ==> result1 != nil
 
 //@ func (r *db) saveBootstrapInfo [C10]
 //@ noframe
 //@ nobounds
-//@ requires r.kvs != nil
 //@ modifies gIOFailed, gRecBootstrap, gBatchCommits
 //@ ensures gIOFailed && !old(gIOFailed) ==> result != nil
 
 //@ func (r *db) listNodeInfo [C10]
 //@ noframe
 //@ nobounds
-//@ requires r.kvs != nil
 //@ modifies gIOFailed
 //@ ensures gIOFailed && !old(gIOFailed) ==> result1 != nil
 
 //@ func (r *db) getSnapshot [C10]
 //@ noframe
 //@ nobounds
-//@ requires r.kvs != nil && r.cs != nil
 //@ modifies gIOFailed
 //@ ensures gIOFailed && !old(gIOFailed) ==> result1 != nil
 
@@ -433,28 +417,24 @@ package logdb
 //@ func (r *db) getRange [C10]
 //@ noframe
 //@ nobounds
-//@ requires r.kvs != nil && r.keys != nil && r.cs != nil && r.entries != nil
 //@ modifies gIOFailed
 //@ ensures gIOFailed && !old(gIOFailed) ==> result2 != nil
 
 //@ func (r *db) readRaftState [C10]
 //@ noframe
 //@ nobounds
-//@ requires r.kvs != nil && r.keys != nil && r.cs != nil && r.entries != nil
 //@ modifies gIOFailed
 //@ ensures gIOFailed && !old(gIOFailed) ==> result1 != nil
 
 //@ func (r *db) iterateEntries [C10]
 //@ noframe
 //@ nobounds
-//@ requires r.kvs != nil && r.keys != nil && r.cs != nil && r.entries != nil
 //@ modifies gIOFailed
 //@ ensures gIOFailed && !old(gIOFailed) ==> result2 != nil
 
 //@ func (r *db) removeNodeData [C10]
 //@ noframe
 //@ nobounds
-//@ requires r.kvs != nil && r.keys != nil && r.cs != nil && r.entries != nil
 //@ modifies gIOFailed, gRecSnapshot, gRecBootstrap, gRecState, gRecMaxIndex, gBatchCommits
 //@ ensures gIOFailed && !old(gIOFailed) ==> result != nil
 
@@ -465,26 +445,77 @@ package logdb
 //@ func (r *db) removeEntriesTo [C10]
 //@ noframe
 //@ nobounds
-//@ requires r.entries != nil
 //@ modifies gIOFailed
 //@ ensures gIOFailed && !old(gIOFailed) ==> result != nil
 //@ func (r *db) compact [C10]
 //@ noframe
 //@ nobounds
-//@ requires r.entries != nil
 //@ modifies gIOFailed
 //@ ensures gIOFailed && !old(gIOFailed) ==> result != nil
 
 //@ func (pe *plainEntries) getRange [C10]
 //@ noframe
 //@ nobounds
-//@ requires pe.kvs != nil && pe.keys != nil
 //@ modifies gIOFailed
 //@ ensures gIOFailed && !old(gIOFailed) ==> result2 != nil
 
 //@ func (be *batchedEntries) getRange [C10]
 //@ noframe
 //@ nobounds
-//@ requires be.kvs != nil && be.keys != nil
 //@ modifies gIOFailed
 //@ ensures gIOFailed && !old(gIOFailed) ==> result2 != nil
+
+// ---------------------------------------------------------------- the sharded front end propagates every storage error (C10)
+//@ extern github.com/lni/dragonboat/v4/internal/server (p IPartitioner) GetPartitionID
+//@ func (s *ShardedDB) getParititionID [C10]
+//@ trusted all updates of a batch belong to one partition (panics otherwise)
+//@ func (s *ShardedDB) SaveRaftStateCtx [C10]
+//@ noframe
+//@ nobounds
+//@ modifies gIOFailed, gRecSnapshot, gRecBootstrap, gRecState, gRecMaxIndex, gBatchCommits, gScanHigh
+//@ ensures gIOFailed && !old(gIOFailed) ==> result != nil
+//@ func (s *ShardedDB) SaveSnapshots [C10]
+//@ noframe
+//@ nobounds
+//@ modifies gIOFailed, gRecSnapshot, gRecBootstrap, gRecState, gRecMaxIndex, gBatchCommits, gScanHigh
+//@ ensures gIOFailed && !old(gIOFailed) ==> result != nil
+//@ func (s *ShardedDB) ReadRaftState [C10]
+//@ noframe
+//@ nobounds
+//@ modifies gIOFailed, gRecSnapshot, gRecBootstrap, gRecState, gRecMaxIndex, gBatchCommits, gScanHigh
+//@ ensures gIOFailed && !old(gIOFailed) ==> result1 != nil
+//@ func (s *ShardedDB) IterateEntries [C10]
+//@ noframe
+//@ nobounds
+//@ modifies gIOFailed, gRecSnapshot, gRecBootstrap, gRecState, gRecMaxIndex, gBatchCommits, gScanHigh
+//@ ensures gIOFailed && !old(gIOFailed) ==> result2 != nil
+//@ func (s *ShardedDB) RemoveEntriesTo [C10]
+//@ noframe
+//@ nobounds
+//@ modifies gIOFailed, gRecSnapshot, gRecBootstrap, gRecState, gRecMaxIndex, gBatchCommits, gScanHigh
+//@ ensures gIOFailed && !old(gIOFailed) ==> result != nil
+//@ func (s *ShardedDB) RemoveNodeData [C10]
+//@ noframe
+//@ nobounds
+//@ modifies gIOFailed, gRecSnapshot, gRecBootstrap, gRecState, gRecMaxIndex, gBatchCommits, gScanHigh
+//@ ensures gIOFailed && !old(gIOFailed) ==> result != nil
+//@ func (s *ShardedDB) ImportSnapshot [C10]
+//@ noframe
+//@ nobounds
+//@ modifies gIOFailed, gRecSnapshot, gRecBootstrap, gRecState, gRecMaxIndex, gBatchCommits, gScanHigh
+//@ ensures gIOFailed && !old(gIOFailed) ==> result != nil
+//@ func (s *ShardedDB) GetSnapshot [C10]
+//@ noframe
+//@ nobounds
+//@ modifies gIOFailed, gRecSnapshot, gRecBootstrap, gRecState, gRecMaxIndex, gBatchCommits, gScanHigh
+//@ ensures gIOFailed && !old(gIOFailed) ==> result1 != nil
+//@ func (s *ShardedDB) SaveBootstrapInfo [C10]
+//@ noframe
+//@ nobounds
+//@ modifies gIOFailed, gRecSnapshot, gRecBootstrap, gRecState, gRecMaxIndex, gBatchCommits, gScanHigh
+//@ ensures gIOFailed && !old(gIOFailed) ==> result != nil
+//@ func (s *ShardedDB) GetBootstrapInfo [C10]
+//@ noframe
+//@ nobounds
+//@ modifies gIOFailed, gRecSnapshot, gRecBootstrap, gRecState, gRecMaxIndex, gBatchCommits, gScanHigh
+//@ ensures gIOFailed && !old(gIOFailed) ==> result1 != nil
